@@ -294,6 +294,7 @@ func run(c *lib.Ctx) {
 		serialisation(c)
 	}
 	phaseAPI(c)
+	phaseClients(c)
 }
 
 // serialisation enumerates day ranges in JSON and YAML form.
@@ -455,6 +456,9 @@ func replay(c *lib.Ctx, raw json.RawMessage) string {
 	if msg, ok := replayAPI(c, raw); ok {
 		return msg
 	}
+	if msg, ok := replayClients(c, raw); ok {
+		return msg
+	}
 	var cs caseC
 	if err := json.Unmarshal(raw, &cs); err != nil {
 		return "bad case: " + err.Error()
@@ -528,12 +532,14 @@ func main() {
 			return map[string]any{
 				"evaluations":         m.Counters["evals"],
 				"distinct_nontrivial": m.Distinct["nontrivial"],
-				"rule": "every zone with a distinct transition table in the window x every local day before/of/after each transition at every whole minute and +-1ns x 9 day ranges x 15 weekday masks, plus 28 ordinary days; serialised ranges over 12x12 start/end values (incl. fractions of a millisecond) in JSON and YAML, each YAML document decoded into an EmptyWeekly() value after which a new EmptyWeekly() must cover nothing; every history of <=4 (thorough: <=6) calls of PUT blocked_services/update (with one of two schedules or none) and the deprecated POST blocked_services/set on a real filter, judged through GET blocked_services/get, the saved section and ApplyBlockedServices at three instants under the virtual clock. distinct_nontrivial = distinct zone tables exercised + distinct serialised documents; transition days counted separately",
+				"rule": "every zone with a distinct transition table in the window x every local day before/of/after each transition at every whole minute and +-1ns x 9 day ranges x 15 weekday masks, plus 28 ordinary days; serialised ranges over 12x12 start/end values (incl. fractions of a millisecond) in JSON and YAML, each YAML document decoded into an EmptyWeekly() value after which a new EmptyWeekly() must cover nothing; every history of <=4 (thorough: <=6) calls of PUT blocked_services/update (with one of two schedules or none) and the deprecated POST blocked_services/set on a real filter, judged through GET blocked_services/get, the saved section and ApplyBlockedServices at three instants under the virtual clock; every history of <=3 (thorough: <=4) steps over a persistent client's own blocked services: POST clients/update with one of three identifier lists (one empty) and one of four schedules, and a restart (writer's clients section -> YAML -> start-up load), the first load being from a written section, judged through GET clients, the saved section (instants and the serialised schedule itself) and the services a request of the client gets at five instants. distinct_nontrivial = distinct zone tables exercised + distinct serialised documents; transition days counted separately",
 				"zones":               m.Counters["zones"],
 				"transition_days":     m.Distinct["transition_days"],
 				"evals_on_transition_days": m.Counters["evals_on_transition_days"],
 				"serialised_documents":     m.Counters["ser_docs"],
 				"api_histories":            m.Counters["api_histories"],
+				"client_histories":         m.Counters["client_histories"],
+				"client_phase_max_shard_ms": m.Maxes["client_phase_ms"],
 			}
 		},
 		Assumptions: []string{"Go's time package and the host tzdata define wall-clock time", "zone enumeration from /usr/share/zoneinfo (fallback: built-in list + time/tzdata)"},
